@@ -395,6 +395,8 @@ class Typed:
             return ('call', pick(r, ('int', 'float')), (a,))
         if k < 0.96:
             f = pick(r, FUN_AGG)
+            if f == 'len' and r.random() < 0.5:
+                return ('call', 'len', (self.compound(pick(r, PRIMS), d - 1),))  # len does not care about element kinds
             return ('call', f, (self.compound(NUM, d - 1),))
         m, _ = self.msg_ref(d - 1)
         if m is not None and m != A.THIS:
